@@ -204,3 +204,32 @@ DEFAULT_LEVEL_TEXT = ("Theorems (Lean 4 kernel-checked, unbounded) give the mean
                       "check on generated operation scripts (every step compared), with minimised replays.")
 DEFAULT_LEVEL_NOTE = ("Proved: the listed theorems about the Lean model (axioms: propext, Classical.choice, Quot.sound). Sampled, not proved: "
                       "that the Go code behaves like the model (correspondence suites). Trusted: generator, harness, hooks, driver parser.")
+
+# ------------------------------------------------------------------------------------------------ per-property level statements
+_LT = {
+    "C01": "L1: every set operation of the verified oracle has its membership meaning (mem_combine) and canonical forms are unique; L2: all nine container pairings of and/or/xor/andNot, their in-place forms, and the static and in-place bitmap-level drivers are modelled down to the returned representation and proved to compute those operations and to preserve well-formedness. Tie: the Go result must be literally the model's representation (kern, l2op, l2iop), plus digest-level comparison of every public form.",
+    "C02": "L1: add/remove/addRange/removeRange/flipRange have their membership meaning; L2: the mutation kernels of all three container kinds and the bitmap-level mutators (copy-on-write gate, range splitting, re-typing, dropped chunks) are modelled exactly and proved (toBSet_*, Checked* booleans, wf_*). Tie: exact representation after every kernel / mutator call (kernmut, l2mut) and digest after every step of generated histories.",
+    "C03": "L1: rank, select, min, max, cardinality-in-range, toList of the oracle are proved against their specifications; L2: the Go query algorithms of the three container kinds (binary searches, word scans, run searches) are modelled as algorithms and proved to return the L1 answers. Tie: every kernel query result must equal both; public queries are compared with the oracle, Equals in both orders.",
+    "C04": "L1: cursor semantics (nextValue/prevValue, toList sorted and complete); L2: the iterators as the Go state machines (per-container and bitmap-level, forward, reverse, many) with invariants, drain / AdvanceIfNeeded / NextMany theorems and harmless re-initialisation. Tie: an L2 state machine is stepped next to the real iterator on every command (l2iter) in addition to the L1 cursor comparison.",
+    "C05": "The writer/reader model of the portable format is proved: exact length, round trip with arbitrary trailing bytes and exact consumption, every proper prefix rejected, no panic on any byte string. Tie: encode(representation) must equal the Go bytes byte for byte; all entry points x chunked readers x trailing bytes x reused receivers x failing writers at every offset; 65535/65536 chunks.",
+    "C06": "Both directions between the writer/reader model and an independent reading of the published format are proved (encode_conforms, conformant_decodes); the literals of the reading are tied to the regenerated constants. Tie: an independent encoder making the other legal choices must be read exactly; Go's bytes are fed to the independent reading.",
+    "C07": "A pointer-graph model with the sharing invariant Safe is preserved by every copy-on-write primitive and a write through the gate touches nothing another bitmap reaches (gate_private); at representation level the flags are part of the exact L2 models (RepMut: an in-place operation changes at most the flags of its argument). Tie: Safe is evaluated on the REAL pointer graph and all live bitmaps are digested after every step.",
+    "C08": "PARTIAL: theorems say an unflagged container is never caller memory, the gate never returns caller memory and detaching severs every reference (model); that the process never stores into the caller's bytes is observed (buffers in read-only mmap regions, then scrambled and unmapped), not proved; the garbage collector is not modelled.",
+    "C09": "wf implies Validate (and conversely for decoded input) is proved; well-formedness is proved preserved by every modelled operation: all container kernels, static and in-place binary operations, mutators, ranges, RunOptimize, transforms, lazy aggregates, parallel aggregates (model), serialization round trip. Tie: Validate + raw representation after the steps of every suite; exact-representation ties; roaring64/BSI by sampling.",
+    "C10": "decode is proved total without panic on every byte string (portable and frozen readers), every proper prefix of an encoding is rejected, accepted-and-validated input is well-formed (so every theorem about well-formed bitmaps applies). Tie: the model decoder must classify every generated byte string like Go, with the same representation and Validate verdict; accepted input gets a query/algebra battery. One recorded finding (4096-value bitmap container).",
+    "C11": "L1: folds (unionL/interL/xorL/andAny) with permutation invariance; L2: FastOr/FastAnd/AndAny with lazy cardinalities and the repair step, ParOr/ParAnd/ParHeapOr data models, proved equal to the folds and well-formed. Tie: exact representation of aggregate results (l2agg, l2par) and digest comparison over operand lists, orders, worker counts.",
+    "C12": "PARTIAL: the goroutine/channel protocols are transition systems proved deadlock-free, terminating under every schedule, with nothing in flight at close; the source skeletons are regenerated and pinned; the data model proves the chunk grid a partition and the result independent of the worker count. The Go scheduler and memory model are not modelled: data-race freedom is observed by race-detector executions (both tiers), goroutine leaks by counting.",
+    "C13": "freeze/frozenView model: exact length, a frozen well-formed representation is viewed as itself, no panic on any byte string, the independent layout reading agrees. Tie: three writers byte for byte against the model, views validated and mutated, corrupted streams classified identically. One recorded finding shared with C10.",
+    "C14": "readme_bound and bound_function are proved for every well-formed representation (the serialized size of the model encoder never exceeds the documented bound / BoundSerializedSizeInBytes, whose closed form is proved from the regenerated function). Tie: size lines after the steps of histories, algebra, transforms, aggregates (sizes must also equal the model's).",
+    "C15": "L1: nextValue/prevValue/nextAbsent/prevAbsent specifications; L2: the container algorithms proved to return them. Tie: kernel-level and public neighbour queries against both.",
+    "C16": "L1: shift with clipping, flipRange; L2: AddOffset64, static Flip, ToDense/FromDense modelled exactly and proved (toBSet_*, wf_*, dense round trip). Tie: exact representation / exact word list (l2xform), digest comparison, borrowed word slices never written.",
+    "C17": "L1 with universe 2^64 and the proved key split; L2: the bucket structure of the 64-bit bitmap with static/in-place binary operations, Flip, AddRange, RemoveRange proved against L1 (32-bit operations inside touched buckets enter as a parameter with a proved instance). Tie: bucket structure compared exactly, everything else through digests.",
+    "C18": "The inner 32-bit streams are covered by the 32-bit round-trip theorems; the 64-bit framing is tied by an independent spec reading and byte accounting. Tie: every entry point, trailing bytes, reused receivers, truncations, corrupted headers, many buckets.",
+    "C19": "Both BSI implementations are modelled plane by plane and proved against a map from column to integer (set/get, histories of SetValue, clear, retain, ParOr, Add/Increment for the 32-bit one, widening, two's complement helpers regenerated from the source). Tie: the real bit planes (hooks) must equal the plane model after every update; map oracle for every operation. One recorded finding (MarshalBinary cannot carry the sign plane).",
+    "C20": "Plane-algebra comparison, Sum, MinMax (and BatchEqual for the 32-bit index) proved against the map semantics; monotonicity of the signed/unsigned transform proved from the regenerated helper. Tie: every query against the map oracle, also answered by the plane algorithms.",
+}
+_LN_TAIL = (" Axioms: propext, Classical.choice, Quot.sound only (audited per obligation). Sampled, not proved: that the Go code behaves like the model "
+            "(correspondence suites; exact token-by-token where an L2 model exists). Trusted: generators, harness + hooks, the checker's parser/printer.")
+for _k, _v in _LT.items():
+    PROPS[_k].setdefault("level_text", _v)
+    PROPS[_k].setdefault("level_note", "Proved about the model: the theorems listed in the evidence file (coverage.theorems)." + _LN_TAIL)
